@@ -181,18 +181,30 @@ pub fn drive(args: &HashMap<String, String>) {
         use crate::gen::{Gen, GenOpts};
         let mut pg = Gen::new(rand_chacha::ChaCha8Rng::seed_from_u64(seed ^ 7), GenOpts::core());
         let builds = ["cl21", "cl23", "cl231", "classic", "cl24"];
+        // compiled in worker processes: a compiler that overflows its stack or loops on a generated program must not
+        // take the driver down (that is C14's business; here such a program is skipped and counted)
+        let mut progs = vec![];
+        let mut jobs = vec![];
         for i in 0..(n / 10) {
             let p = pg.program();
             let b = builds[i % builds.len()];
             if !crate::p_compile::renderable(&p, b) {
                 continue;
             }
-            if let Ok(c) = crate::ops_compile::compile_lib(&p.render(crate::p_compile::sigil_of(b)), "*verif*", &[], Some(false)) {
-                for e in pg.args_for(&p, 2) {
-                    if c.code.size() < 400 {
-                        cases.push((c.code.clone(), e));
+            jobs.push(json!({"op": "compile", "text": p.render(crate::p_compile::sigil_of(b)), "optimize": false}));
+            let envs = pg.args_for(&p, 2);
+            progs.push((p, envs));
+        }
+        let rs = run_jobs(jobs, &PoolCfg { batch: 1, timeout: Duration::from_secs(60), ..PoolCfg::default() });
+        for ((p, envs), r) in progs.iter().zip(rs.iter()) {
+            if let Some(code) = r.get("ok").and_then(|j| V::from_json(j).ok()) {
+                for e in envs {
+                    if code.size() < 400 {
+                        cases.push((code.clone(), e.clone()));
                     }
                 }
+            } else if r.get("err").is_none() {
+                eprintln!("drive-cldb: compiler did not answer on {}", p.render(""));
             }
         }
     }
